@@ -134,7 +134,7 @@ PROPS['C02'] = dict(
     quick=dict(workers=8, cases=2000, budget=40, min_nontrivial=40),
     thorough=dict(workers=16, cases=30000, budget=1200, min_nontrivial=3000),
     rule='case = configuration as in C01 (one client; forced fragment sizes limited to what the answer format carries) + '
-         'either (a) clean path, 1..40 offers with bursts and idle gaps up to 30 s: every accepted packet that fits 12 '
+         'either (a) clean path, 1..40 offers with bursts and idle gaps up to 30 s (one case in four: one direction only, a packet every 2..15 s for up to several minutes): every accepted packet that fits 12 '
          'fragments (conservative capacity) must be written at the peer exactly once, in order, within 5 virtual s; or '
          '(b) fault phase of 1..40 virtual s (drop/dup/delay/black-out, optionally one direction), 15 s settling on a clean '
          'path, then 12 fresh packets each way of which the last 4 are judged: each delivered at least once, in order, within 10 s; neither program may exit; '
